@@ -224,10 +224,15 @@ def overlapped(out):
     return False
 
 
+ATTEMPTS = {"granted": 0, "refused": 0}
+
+
 def kind(case, out):
     ev = out.split(" | ")[0].split()
     acq = [e for e in ev if len(e) == 3 and e[1] in "SXHUa"]
     ok = sum(1 for e in acq if e[2] == "+")
+    ATTEMPTS["granted"] += ok
+    ATTEMPTS["refused"] += len(acq) - ok
     res = "none" if not acq else "allok" if ok == len(acq) else "allfail" if ok == 0 else "mixed"
     return "%st:%s" % (case.split()[1], res)
 
@@ -266,3 +271,19 @@ def run(res, tier):
                      corr_name="RwlockModel vs src/ipc/ReadWriteLock.cc under sched_atomic.h",
                      n_quick=12000, n_thorough=150000, seed_salt=54, mutate=mutate,
                      kind_fn=kind, nontrivial_fn=lambda c, o: overlapped(o))
+    res.extra["lock_attempts"] = dict(ATTEMPTS)   # outcome balance over all lock/upgrade/stopAppending attempts
+
+
+def replay(d):
+    """./verif replay <file>: run the recorded case on the implementation built from the current tree"""
+    from vlib import corr
+    case = d.get("replay", {}).get("case")
+    if not case:
+        print(d.get("description", "no case recorded"))
+        return 0
+    out = corr.run_lines(impl(), [case])[0]
+    v = oracle(case, out)
+    print("case:   " + case)
+    print("impl:   " + out)
+    print("oracle: " + ("holds" if v is None else "%s: %s" % v))
+    return 1 if v else 0
